@@ -37,6 +37,7 @@ var bedUpstreams = []struct{ Tag, Scheme, Transport string }{
 	{"dohs", "https", "https"},
 	{"h3", "h3", "h3"},
 	{"doq", "quic", "quic"},
+	{"udpx", "udp", "udponly"}, // a udp upstream whose TCP side refuses connections
 }
 
 type BedOpts struct {
@@ -193,6 +194,8 @@ func newBedOnce(c *Ctx, name string, o BedOpts) (*Bed, error) {
 		switch spec.Transport {
 		case "udp":
 			s, err = listenBoth(tag)
+		case "udponly":
+			err = s.ListenUDP("127.0.0.1:0")
 		case "tcp":
 			err = s.ListenTCP("127.0.0.1:0")
 		case "tls":
@@ -212,9 +215,12 @@ func newBedOnce(c *Ctx, name string, o BedOpts) (*Bed, error) {
 		}
 		b.Up[tag] = s
 		addr := s.Addr[spec.Transport]
+		if spec.Transport == "udponly" {
+			addr = s.Addr["udp"]
+		}
 		_, port, _ := strings.Cut(addr, ":")
 		switch spec.Transport {
-		case "udp", "tcp":
+		case "udp", "tcp", "udponly":
 			fmt.Fprintf(&y, "  - tag: %s\n    addr: \"%s://%s\"\n", tag, spec.Scheme, addr)
 		case "http":
 			fmt.Fprintf(&y, "  - tag: %s\n    addr: \"http://%s/dns-query\"\n", tag, addr)
